@@ -438,7 +438,7 @@ PROPS = {
                 "parent/child position (plain, index, map, call, open-ended), parameter lists with 44 kinds of token in every position, 34 kinds of operand "
                 "on either side of the dot index / [ ] / call, a comment (line, block, multi-line) between every pair of 12 statement kinds with every "
                 "combination of separators at top level and in 11 kinds of block (function, if / else / else-if, for, lambda, macro, blocks inside call "
-                "arguments, arrays, map values), statement pairs x 7 separators inside 19 kinds of nested block (sampled 1/30 in the quick tier), and nests of 37 wrapping "
+                "arguments, arrays, map values), statement pairs x 7 separators inside 19 kinds of nested block (sampled 1/60 in the quick tier), and nests of 37 wrapping "
                 "constructs 12 and 40 levels deep plus 60 random mixed nests. The class repeated-associative-operator-on-the-right is decided exactly: the "
                 "re-parsed tree equals the original up to re-association of chains of one associative operator. Tree equality ignores the two layout flags of comments, and "
                 "statement-level comments in compact mode. non-trivial = error-free non-empty program.",
